@@ -312,7 +312,7 @@ def parse_case(l):
             return (int(f[1]), int(f[2]), f[3] == "1", unhex(f[4]), p_reqextra(f[5:]))
         if f[0] == "rpcextra.resp" and len(f) == 20:
             return (int(f[1]), int(f[2]), f[3] == "1", f[4] == "1", int(f[5]), p_err(f[6]), unhex(f[7]), p_resextra(f[8:]))
-        if f[0] == "rpcextra.e2e" and len(f) == 32:
+        if f[0] in ("rpcextra.e2e", "rpcextra.e2el") and len(f) == 32:
             return (int(f[1]), f[2] == "1", unhex(f[3]), p_reqextra(f[4:18]), p_err(f[18]), unhex(f[19]), p_resextra(f[20:]))
     except (ValueError, IndexError, AssertionError):
         return None
@@ -622,7 +622,7 @@ def run(c):
     # ------------------------------------------------------------ phase 4: end-to-end loopback (exploration)
     # a real rpc.Server and rpc.Client over TCP on 127.0.0.1: client Request.Extra vs HandlerContext.RequestExtra,
     # handler ResponseExtra / error vs client Response.Extra / error
-    lines4 = [l for l in replay_lines if l.startswith("rpcextra.e2e ")]
+    lines4 = [l for l in replay_lines if l.startswith("rpcextra.e2e ") or l.startswith("rpcextra.e2el ")]
     for _ in range(12000 if c.thorough else 1500):
         tl2 = rng.chance(1, 2)
         e = g.reqextra()
@@ -653,6 +653,15 @@ def run(c):
         re_ = g.resextra()
         ln = "rpcextra.e2e %d %d %s %s %s %s %s" % (actor, 1 if tl2 else 0, hx(body), w_reqextra(e), err_word(err), hx(rbody), w_resextra(re_))
         lines4.append(ln)
+    # every second generated call is also answered through the long-poll path (a fresh HandlerContext restored from what
+    # toLongpollContext saved); calls with a short custom timeout are left out: the server may time the long poll out first
+    lp = []
+    for i, l in enumerate([x for x in lines4 if x.startswith("rpcextra.e2e ")]):
+        m = parse_case(l)
+        if m and i % 2 == 0 and (m[3]["ct"] == 0 or 2000 <= m[3]["ct"] < 2**31):
+            lp.append("rpcextra.e2el" + l[len("rpcextra.e2e"):])
+    lines4 = lines4 + [l for l in lp if l not in lines4]
+    c.count("loopback:long-poll calls", len(lp))
     res4 = c.tie("loopback", lines4, impl, model)
     for l, a, _ in res4:
         m = parse_case(l)
